@@ -161,6 +161,114 @@ def run(ctx):
     else:
         chk.ok(R2, sb.qualname, 'dump metadata', detail='no utime/copystat on the dump: it carries a fresh mtime', nontrivial=False)
 
+    # the dump is transferred under the index' own file name (it lands in the backup root next to packs/ and loose/)
+    dirs0 = K.dirs()
+    idxname = dirs0['index'][0]
+    dump_names = []
+    for n in walk_local(fn.node):
+        if isinstance(n, ast.Assign) and isinstance(n.value, ast.BinOp) and isinstance(n.value.op, ast.Div) and isinstance(n.targets[0], ast.Name):
+            # <temp dir> / <name>
+            if any(isinstance(c, ast.Call) and norm(c.func) == '_sqlite_backup' and len(c.args) > 1 and norm(c.args[1]) == n.targets[0].id for c in walk_local(fn.node)):
+                right = n.value.right
+                v = fold(prog, right, fn, {})
+                if v is UNKNOWN and isinstance(right, ast.Attribute) and right.attr == 'name':
+                    kk = K.kind(right.value, g.top)
+                    ar = K.area(alts(kk)[0]) if alts(kk) else None
+                    v = idxname if ar is not None and ar[0] == 'index' else UNKNOWN
+                dump_names.append((n, v))
+    chk.require(dump_names, 'backup_container: the path of the index dump (<temp dir> / <name>) passed to _sqlite_backup was not found')
+    for n, v in dump_names:
+        if v == idxname:
+            chk.ok(R2, BACKUP, norm(n), detail=f'the dump is named like the index file ({idxname!r} = Container._get_pack_index_path().name)')
+        else:
+            chk.bad(R2, BACKUP, norm(n), f'the dumped index is transferred under the name {v!r} but the container opens {idxname!r}: the backup would have no usable index', where=f'{fn.module.relpath}:{n.lineno}')
+
+    # ---------------------------------------------------------------- R5: closed table of rsync options
+    R5 = chk.rule('C15.R5', 'every constant rsync option (base options and per-call extra arguments) is in the reviewed table: nothing that makes rsync skip, truncate or tolerate', 1)
+    ALLOWED_OPTS = {
+        '-azh': 'archive (recursive, preserve attrs), compress, human-readable',
+        '--no-whole-file': 'delta transfer also for local copies',
+        '--info=progress2,stats1': 'progress display', '--progress': 'progress display', '-vv': 'verbosity',
+        '--exclude': 'only in the final "everything else" copy; its patterns are evaluated by R3',
+    }
+    cr0 = prog.fn('backup_utils:BackupManager.call_rsync')
+    nopt = 0
+    badopt = []
+
+    def const_strings(e):
+        out = []
+        for x in ast.walk(e):
+            if isinstance(x, ast.Constant) and isinstance(x.value, str):
+                par = getattr(x, '_parent', None)
+                if isinstance(par, ast.JoinedStr):
+                    continue
+                out.append(x)
+            elif isinstance(x, ast.JoinedStr):
+                head = x.values[0] if x.values and isinstance(x.values[0], ast.Constant) else None
+                out.append((x, head.value if head is not None else ''))
+        return out
+    arglist = None
+    for n in walk_local(cr0.node):
+        if isinstance(n, ast.Call) and norm(n.func) == 'subprocess.run' and n.args and isinstance(n.args[0], ast.Name):
+            arglist = n.args[0].id
+    chk.require(arglist is not None, 'call_rsync: the argument list passed to subprocess.run was not found')
+    for n in walk_local(cr0.node):
+        val = None
+        if isinstance(n, ast.Assign) and isinstance(n.targets[0], ast.Name) and n.targets[0].id == arglist:
+            val = n.value
+        elif isinstance(n, ast.AugAssign) and isinstance(n.target, ast.Name) and n.target.id == arglist:
+            val = n.value
+        if val is None:
+            continue
+        for c in const_strings(val):
+            if isinstance(c, tuple):
+                node, head = c
+                if head.startswith('--link-dest=') or not head.startswith('-'):
+                    continue  # --link-dest=<previous backup> (hard links for unchanged files); remote:dest strings
+                badopt.append((node, head + '...'))
+                continue
+            if not c.value.startswith('-'):
+                continue
+            nopt += 1
+            if c.value not in ALLOWED_OPTS:
+                badopt.append((c, c.value))
+    # per-call extra arguments in the backup path
+    for f2 in prog.all_functions():
+        if not f2.module.name.endswith('backup_utils') and not f2.module.name.endswith('cli'):
+            continue
+        if isinstance(f2.node, ast.Lambda):
+            continue
+        for n in walk_local(f2.node):
+            if isinstance(n, ast.Call) and isinstance(n.func, ast.Attribute) and n.func.attr == 'call_rsync':
+                ex = next((k.value for k in n.keywords if k.arg == 'extra_args'), None)
+                if ex is None:
+                    continue
+                if not isinstance(ex, (ast.List, ast.Tuple)):
+                    badopt.append((ex, f'non-literal extra_args `{norm(ex)}`'))
+                    continue
+                prev_excl = False
+                for el in ex.elts:
+                    v = fold(prog, el, f2, {})
+                    if prev_excl:
+                        prev_excl = False
+                        continue
+                    if v == '--exclude':
+                        prev_excl = True
+                        nopt += 1
+                        continue
+                    if isinstance(v, str) and v.startswith('--exclude='):
+                        nopt += 1
+                        continue
+                    badopt.append((el, v if isinstance(v, str) else norm(el)))
+    chk.require(nopt >= 4, f'call_rsync: expected at least 4 constant rsync options, found {nopt}')
+    if badopt:
+        for node, txt in badopt:
+            chk.bad(R5, 'backup_utils:BackupManager.call_rsync', f'rsync option {txt}', f'rsync is run with an option that is not in the reviewed table ({sorted(ALLOWED_OPTS)}): options such as '
+                    '--size-only/--update/--ignore-existing/--append/--inplace/--ignore-errors/--max-size/--dry-run change which files are transferred or how failures are reported, '
+                    'so the backup can silently miss or truncate data', where=f'disk_objectstore/backup_utils.py:{getattr(node, "lineno", 0)}')
+    else:
+        chk.ok(R5, 'backup_utils:BackupManager.call_rsync', f'{nopt} constant option(s)', detail='all in the reviewed table; per-call extra arguments are --exclude only', evals=nopt)
+
     # ---------------------------------------------------------------- R3
     rest = m.seen.get('rest')
     if rest is not None:
